@@ -16,6 +16,9 @@ from toasty.toast import ToastCoordinateSystem
 from . import common
 
 
+LARGE_OK = [False]       # C03 switches the occasional very large item sets on
+
+
 class InjectedError(Exception):
     pass
 
@@ -117,7 +120,12 @@ class LeafVisitStage(object):
     name = "visit_leaves"
 
     def __init__(self, ch):
-        self.cfg = common.draw_pyramid(ch, max_generic=3, max_toast=3, allow_deep=True)
+        if LARGE_OK[0] and ch.draw(120, kind="large_leaf_set") == 119:
+            # now and then a layer with thousands of leaves (hundreds per worker): size-dependent code paths
+            self.cfg = common.PyrConfig("generic", 5 + ch.draw(2, kind="large_depth"), None, set())
+            self.large = True
+        else:
+            self.cfg = common.draw_pyramid(ch, max_generic=3, max_toast=3, allow_deep=True)
         self.coordsys = None
         if self.cfg.kind != "generic":
             self.coordsys = (ToastCoordinateSystem.ASTRONOMICAL, ToastCoordinateSystem.PLANETARY)[ch.draw(2, kind="coordsys")]
@@ -166,6 +174,9 @@ class TransformStage(object):
 
     def __init__(self, ch):
         self.depth = ch.draw(4, kind="depth")
+        if LARGE_OK[0] and ch.draw(120, kind="large_item_set") == 119:
+            self.depth = 5 + ch.draw(2, kind="large_depth")
+            self.large = True
 
     def describe(self):
         return {"stage": self.name, "depth": self.depth}
